@@ -337,6 +337,35 @@ unsafe fn drop_cycle<T>(cycle: HashMap<Link<T>, usize>) {
     }
 }
 
+// Unlink an `Rc` whose allocation is being given up without running `Drop`
+// (`Rc::try_unwrap`, `Rc::make_mut`).
+//
+// The contained value moves elsewhere, so the adoptions recorded for this
+// allocation no longer describe anything: remove `this` from the link tables
+// of all of its peers, exactly as `drop_unreachable_with_adoptions` does, and
+// release the heap storage of its own table. Afterwards no other `RcBox`
+// refers to this allocation and its `links` field is uninhabited.
+//
+// # Safety
+//
+// `this` must be live. The caller must kill `this` (strong count of zero)
+// without dropping it so `links` is never accessed again.
+pub(crate) unsafe fn abandon_links<T>(this: &Rc<T>) {
+    let forward = Link::forward(this.ptr);
+    let backward = Link::backward(this.ptr);
+    let links = this.inner().links();
+    for (item, &strong) in links.borrow().iter() {
+        if ptr::eq(this.inner(), item.as_ptr()) {
+            continue;
+        }
+        let mut links = item.as_ref().links().borrow_mut();
+        links.remove(forward, strong);
+        links.remove(backward, strong);
+    }
+    let rcbox = this.ptr.as_ptr();
+    ptr::drop_in_place((*rcbox).links.as_mut_ptr());
+}
+
 // Drop an `Rc` that is unreachable, but has adopted other `Rc`s.
 //
 // Unreachable `Rc`s have a strong count of zero, but because they have adopted
